@@ -1,4 +1,6 @@
 import AITB.Model.Num
 import AITB.Model.Proto
 import AITB.Model.Factored
+import AITB.Model.MDP
 import AITB.Props.C14
+import AITB.Props.C01
